@@ -299,4 +299,59 @@ example : (Nest.label (Nest.subq (Nest.union (Nest.label (Nest.col true)) (Nest.
     nesting level sees (`Label._make_proxy` copies the label's type onto the proxy column) -/
 example : (Nest.subq (Nest.subq (Nest.labelT true (Nest.col false)))).procCount = 1 := by decide
 
+/-! ## expanded IN elements keep the bind processor; reported primary keys -/
+
+theorem lookup_range_map (esc p : Nat) : ∀ (n j : Nat), j < n →
+    ((List.range n).map (fun i => ((esc, i + 1), p))).lookup (esc, j + 1) = some p := by
+  intro n
+  induction n with
+  | zero => intro j h; omega
+  | succ n ih =>
+    intro j h
+    rw [List.range_succ, List.map_append, List.lookup_append]
+    by_cases hj : j < n
+    · rw [ih j hj]; rfl
+    · have hjn : j = n := by omega
+      subst hjn
+      have hnone : ((List.range j).map (fun i => ((esc, i + 1), p))).lookup (esc, j + 1) = none := by
+        rw [List.lookup_eq_none_iff]
+        intro e he
+        simp only [List.mem_map, List.mem_range] at he
+        obtain ⟨i, hi, rfl⟩ := he
+        simp only [bne_iff_ne, ne_eq, Prod.mk.injEq, not_and]
+        intro _; omega
+      simp [hnone, List.lookup]
+
+/-- **expanded_elements_processed**: whatever the DBAPI-safe (escaped) name of an expanding bind
+    is, every one of its `n` expanded elements carries the bind processor registered for the
+    bind — IN lists are bind-processed element by element, for every column name -/
+theorem expanded_elements_processed (procs : List (Nat × Nat)) (name esc n p : Nat)
+    (h : procs.lookup name = some p) :
+    ∀ j, j < n → (expandBind procs name esc n).lookup (esc, j + 1) = some p := by
+  intro j hj
+  simp only [expandBind, h]
+  exact lookup_range_map esc p n j hj
+
+/-- no processor for the bind ⇒ none for its elements (types without bind processing) -/
+theorem expanded_elements_unprocessed (procs : List (Nat × Nat)) (name esc n : Nat)
+    (h : procs.lookup name = none) : expandBind procs name esc n = [] := by
+  simp [expandBind, h]
+
+example : (expandBind [(1, 7), (3, 9)] 1 2 3).lookup (2, 3) = some 7 := by decide
+
+/-- **inserted_pk_matches_select**: for a primary-key type whose result processing undoes its
+    bind processing, the key an INSERT reports on a lastrowid backend equals what a SELECT of
+    that row returns — for an explicit key (stored as `bind v`) and for a generated one -/
+theorem inserted_pk_matches_select (bind proc : Int → Int) (hrt : ∀ v, proc (bind v) = v)
+    (explicitParam : Option Int) (generated : Int) :
+    let stored := match explicitParam with
+      | some v => bind v
+      | none => generated
+    insertedPk proc explicitParam stored = proc stored := by
+  cases explicitParam with
+  | some v => simp [insertedPk, hrt]
+  | none => simp [insertedPk]
+
+example : insertedPk (· + 1000) (some 1010) 10 = 1010 ∧ insertedPk (· + 1000) none 11 = 1011 := by decide
+
 end SaVerif.Props.C09
